@@ -47,8 +47,8 @@ structure Mod where
   isOpen : Bool
 deriving Repr, DecidableEq, Hashable
 
-/-- `mods` lists every instance ever requested (a failed instantiate leaves a stillborn, closed
-record so that its handle is never reused); newest first. -/
+/-- `mods` lists every instance ever created (an instantiate that fails on a duplicate name leaves a
+stillborn, closed record so that its handle is never reused); newest first. -/
 structure Reg where
   mods : List Mod := []
   rtClosed : Bool := false
@@ -75,8 +75,8 @@ def closeAllMods : List Mod → List Mod
 
 def Reg.step (r : Reg) : Op → Reg × Res
   | .instantiate h name _ =>
-    if r.has h then (r, .bad)
-    else if r.rtClosed then ({ r with mods := ⟨h, name, false⟩ :: r.mods }, .errClosed)
+    if r.rtClosed then (r, .errClosed)
+    else if r.has h then (r, .bad)
     else if (r.owner name).isSome then ({ r with mods := ⟨h, name, false⟩ :: r.mods }, .errDup)
     else ({ r with mods := ⟨h, name, true⟩ :: r.mods }, .ok)
   | .lookup name =>
